@@ -8,7 +8,7 @@ cd $wt || exit 2
 git checkout -q -- src && git apply $out/patch.diff || { echo "patch does not apply"; exit 2; }
 mkdir -p tests; cp $demo tests/$name.rs
 export CARGO_NET_OFFLINE=true
-echo "== with change: demo (expect FAIL)"; cargo test --offline "$@" --test $name 2>&1 | grep -E "^test result|panicked|error(\[|:)" | head -5
+echo "== with change: demo (expect FAIL)"; cargo test --offline "$@" --test $name 2>&1 | grep -E "^test result|error(\[|:)" | head -5
 echo "== with change: lib tests (expect 62 passed)"; cargo test --offline --lib 2>&1 | grep -E "^test result"
 git checkout -q -- src
-echo "== without change: demo (expect ok)"; cargo test --offline "$@" --test $name 2>&1 | grep -E "^test result|panicked|error(\[|:)" | head -5
+echo "== without change: demo (expect ok)"; cargo test --offline "$@" --test $name 2>&1 | grep -E "^test result|error(\[|:)" | head -5
